@@ -451,10 +451,11 @@ theorem onGrid_fin (s : Bool) (m : ℕ) (e : ℤ) (hm : m < 2 ^ 53) (he1 : -1074
   · cases s <;> simp <;> exact_mod_cast hm
   · rw [val_fin]; cases s <;> simp
 
-/-- how the computed in-tile offset `t'` relates to the exact one `x − 10^5·n`: equal, or — only in tile `−1` for
-`−50 km < x < 0` — the correctly rounded sum `x + 10^5` (error `≤ 2^(−37)` m) -/
+/-- how the computed in-tile offset `t'` relates to the exact one `x − 10^5·n`: equal (every tile except `−1`, and tile
+`−1` for `x ≤ −50 km`), or — only in tile `−1` for `−50 km < x < 0` — the correctly rounded sum `x + 10^5`
+(error `≤ 2^(−37)` m) -/
 def OffsetRel (v : ℚ) (n : ℤ) (t' : ℚ) : Prop :=
-  t' = v - 100000 * (n:ℚ) ∨
+  (t' = v - 100000 * (n:ℚ) ∧ (n ≠ -1 ∨ v ≤ -50000)) ∨
   (n = -1 ∧ -50000 < v ∧ IsRN 53 (-1074) (v + 100000) t' ∧ |t' - (v + 100000)| ≤ (2:ℚ) ^ (-(37:ℤ)))
 
 /-- the digit indices computed from an offset value `t'` at precision `p` -/
@@ -466,10 +467,48 @@ theorem zero_digits : ∀ p < 12, fl ((0:F64) / pow10 (5 - p)) = 0 ∧
     fl (((0:F64) - F64.floor ((0:F64) / pow10 (5 - p))) * pow10 (p - 5)) = 0 := by decide +kernel
 
 theorem scaleCoord_eq (x : F64) (p : ℕ) :
-    scaleCoord x p = ⟨fl (x / F64.ofInt osgb_tile),
-      fl (offset x (fl (x / F64.ofInt osgb_tile)) / pow10 (5 - p)),
-      if p > 5 then fl ((offset x (fl (x / F64.ofInt osgb_tile)) -
-        F64.floor (offset x (fl (x / F64.ofInt osgb_tile)) / pow10 (5 - p))) * pow10 (p - 5)) else 0⟩ := rfl
+    scaleCoord x p = ⟨(carry (offset x (fl (x / F64.ofInt osgb_tile))) (fl (x / F64.ofInt osgb_tile))).2,
+      fl ((carry (offset x (fl (x / F64.ofInt osgb_tile))) (fl (x / F64.ofInt osgb_tile))).1 / pow10 (5 - p)),
+      if p > 5 then fl (((carry (offset x (fl (x / F64.ofInt osgb_tile))) (fl (x / F64.ofInt osgb_tile))).1 -
+        F64.floor ((carry (offset x (fl (x / F64.ofInt osgb_tile))) (fl (x / F64.ofInt osgb_tile))).1 / pow10 (5 - p))) * pow10 (p - 5)) else 0⟩ := rfl
+
+theorem le_of_hasVal {a b : F64} {va vb : ℚ} (ha : HasVal a va) (hb : HasVal b vb) : F64.le a b = true ↔ va ≤ vb := by
+  obtain ⟨sa, ma, ea, rfl, ea'⟩ := ha.fin
+  obtain ⟨sb, mb, eb, rfl, eb'⟩ := hb.fin
+  show Dy.le (F64.fin sa ma ea).toDy (F64.fin sb mb eb).toDy = true ↔ _
+  rw [Dy.le_iff]
+  show (F64.fin sa ma ea).val ≤ (F64.fin sb mb eb).val ↔ _
+  rw [ea', eb']
+
+theorem hasVal_tile : HasVal (F64.ofInt osgb_tile) (100000:ℚ) := by
+  have := hasVal_ofInt osgb_tile
+  simpa [osgb_tile] using this
+
+/-- the carry of the repaired code does nothing below the tile size … -/
+theorem carry_lt {xf : F64} {t : ℚ} (hx : HasVal xf t) (h : t < 100000) (n : ℤ) : carry xf n = (xf, n) := by
+  unfold carry
+  have : F64.ge xf (F64.ofInt osgb_tile) = false := by
+    rw [Bool.eq_false_iff]
+    intro hc
+    have := (le_of_hasVal hasVal_tile hx).mp hc
+    linarith
+  rw [this]; rfl
+
+/-- … and moves an offset equal to the tile size to the start of the next tile -/
+theorem carry_ge {xf : F64} {t : ℚ} (hx : HasVal xf t) (h : 100000 ≤ t) (n : ℤ) : carry xf n = (0, n + 1) := by
+  unfold carry
+  have : F64.ge xf (F64.ofInt osgb_tile) = true := (le_of_hasVal hasVal_tile hx).mpr h
+  rw [this]; rfl
+
+/-- all digit indices of a zero offset are zero -/
+theorem zero_sc (h : ℤ) (p : ℕ) (hp : p ≤ 11) :
+    (⟨h, fl ((0:F64) / pow10 (5 - p)),
+      if p > 5 then fl (((0:F64) - F64.floor ((0:F64) / pow10 (5 - p))) * pow10 (p - 5)) else 0⟩ : Sc) = ⟨h, 0, 0⟩ := by
+  obtain ⟨z1, z2⟩ := zero_digits p (by omega)
+  rw [z1]
+  by_cases h5 : p > 5
+  · rw [if_pos h5, z2]
+  · rw [if_neg h5]
 
 /-- digits from a computed offset -/
 theorem digits_of_offset {xf : F64} {t : ℚ} (hx : HasVal xf t) (hg : OnGrid t) (t0 : 0 ≤ t) (t1 : t ≤ 100000) (p : ℕ) (hp : p ≤ 11) :
@@ -492,17 +531,20 @@ theorem digits_of_offset {xf : F64} {t : ℚ} (hx : HasVal xf t) (hg : OnGrid t)
       ⌊(t - ⌊t⌋) * 10 ^ (p - 5)⌋ (Int.floor_le _) (Int.lt_floor_add_one _)
     exact ⟨a, b⟩
 
-/-- **the floating part of `OSGB::GridReference` for one coordinate** (every finite `x = ±m·2^e` with `m < 2^53`,
-`−1074 ≤ e ≤ 0`, `|x| ≤ 10^7` m, every precision `p ≤ 11`), with `n = ⌊x / 10^5⌋` the exact 100 km index:
+/-- **the floating part of `OSGB::GridReference` for one coordinate** (every finite grid value `x`, `|x| ≤ 10^7` m, every
+precision `p ≤ 11`), with `n = ⌊x / 10^5⌋` the exact 100 km index:
 
-* either the quotient `x / 10^5` underflows to `−0` (`n = −1`, `−x/10^5 ≤ 2^(−1075)`): tile `0`, all digits `0`
-  — the square just east/north of the position (a sliver of width `5·10^(−319)` m);
-* or the tile index is exact, the offset is `OffsetRel`, and the digits are `DigitRel` of that offset. -/
+* either `n = −1` and the code is tile `0`, all digits `0` — the square adjoining the position to the east/north — which
+  happens in exactly two circumstances: the quotient `x / 10^5` underflows to `−0` (`−x/10^5 ≤ 2^(−1075)`, a sliver of
+  `5·10^(−319)` m), or the sum `x + 10^5` rounds to the tile size `10^5` (`−2^(−37) ≤ x`) and the carry of the repaired code
+  (finding F74) moves the point to the start of the next tile (a sliver of at most `2^(−37)` m: class F75);
+* or the tile index is exact, the offset `t' < 10^5` is `OffsetRel`, and the digits are `DigitRel` of that offset. -/
 theorem scaleCoord_spec_val {x : F64} {v : ℚ} (hx : HasVal x v) (hg : OnGrid v) (p : ℕ) (hp : p ≤ 11)
     (hb : |v| ≤ 10 ^ 7) (n : ℤ) (hn1 : (n:ℚ) ≤ v / 100000) (hn2 : v / 100000 < (n:ℚ) + 1) :
     let sc := scaleCoord x p
-    (n = -1 ∧ -(v / 100000) ≤ (2:ℚ) ^ (-(1075:ℤ)) ∧ sc = ⟨0, 0, 0⟩) ∨
-    (sc.h = n ∧ ∃ t' : ℚ, OffsetRel v n t' ∧ 0 ≤ t' ∧ t' ≤ 100000 ∧
+    (n = -1 ∧ (-(v / 100000) ≤ (2:ℚ) ^ (-(1075:ℤ)) ∨
+        (-(2:ℚ) ^ (-(37:ℤ)) ≤ v ∧ IsRN 53 (-1074) (v + 100000) 100000)) ∧ sc = ⟨0, 0, 0⟩) ∨
+    (sc.h = n ∧ ∃ t' : ℚ, OffsetRel v n t' ∧ 0 ≤ t' ∧ t' < 100000 ∧
       ∃ pv : ℚ, DigitRel t' p sc.i1 sc.i2 pv) := by
   intro sc
   have hbb := abs_le.mp hb
@@ -526,7 +568,6 @@ theorem scaleCoord_spec_val {x : F64} {v : ℚ} (hx : HasVal x v) (hg : OnGrid v
   rw [scaleCoord_eq] at hsc
   rcases tile_floor hx hg hb n hn1 hn2 with htile | ⟨htile, hU⟩
   · -- regular tile index
-    right
     rw [htile] at hsc
     -- offset
     have hoff : ∃ t' : ℚ, OffsetRel v n t' ∧ 0 ≤ t' ∧ t' ≤ 100000 ∧ HasVal (offset x n) t' ∧ OnGrid t' := by
@@ -552,7 +593,7 @@ theorem scaleCoord_spec_val {x : F64} {v : ℚ} (hx : HasVal x v) (hg : OnGrid v
             · have : (n:ℚ) ≤ -2 := by exact_mod_cast h2
               linarith
         obtain ⟨h1, h2⟩ := offset_exact hx hg n hnb ht0 hsm hb
-        exact ⟨_, Or.inl rfl, ht0, le_of_lt ht1, h1, h2⟩
+        exact ⟨_, Or.inl ⟨rfl, hcase⟩, ht0, le_of_lt ht1, h1, h2⟩
       · have hn : n = -1 := by
           by_contra hc; exact hcase (Or.inl hc)
         have hv1 : -50000 < v := by
@@ -565,11 +606,28 @@ theorem scaleCoord_spec_val {x : F64} {v : ℚ} (hx : HasVal x v) (hg : OnGrid v
         rw [hn]
         exact ⟨r, Or.inr ⟨rfl, hv1, hr, herr⟩, by linarith, r2, hval, hgr⟩
     obtain ⟨t', hrel, t0', t1', hval, hgr⟩ := hoff
-    have hd := digits_of_offset hval hgr t0' t1' p hp
-    refine ⟨by rw [hsc], t', hrel, t0', t1',
-      ((offset x n - (offset x n / pow10 (5 - p)).floor) * pow10 (p - 5)).val, ?_⟩
-    rw [hsc]
-    exact hd
+    by_cases hlt : t' < 100000
+    · -- no carry
+      right
+      rw [carry_lt hval hlt n] at hsc
+      have hd := digits_of_offset hval hgr t0' t1' p hp
+      refine ⟨by rw [hsc], t', hrel, t0', hlt,
+        ((offset x n - (offset x n / pow10 (5 - p)).floor) * pow10 (p - 5)).val, ?_⟩
+      rw [hsc]
+      exact hd
+    · -- the rounded offset is the tile size: carry into the next tile
+      left
+      have ht : t' = 100000 := le_antisymm t1' (not_lt.mp hlt)
+      rw [carry_ge hval (not_lt.mp hlt) n] at hsc
+      rcases hrel with ⟨he, _⟩ | ⟨hn, _, hr, herr⟩
+      · exfalso; rw [ht] at he; linarith
+      · rw [ht] at hr herr
+        have hv37 : -(2:ℚ) ^ (-(37:ℤ)) ≤ v := by
+          have := (abs_le.mp herr).2
+          linarith
+        refine ⟨hn, Or.inr ⟨hv37, hr⟩, ?_⟩
+        rw [hsc, hn]
+        exact zero_sc ((-1:ℤ) + 1) p hp
   · -- the quotient underflowed: coded tile n + 1
     left
     -- n = -1
@@ -619,7 +677,7 @@ theorem scaleCoord_spec_val {x : F64} {v : ℚ} (hx : HasVal x v) (hg : OnGrid v
           have : (2:ℚ) ^ (-(1075:ℤ)) < (2:ℚ) ^ (-(1:ℤ)) := two_zpow_lt_iff.mpr (by norm_num)
           simpa using this
         linarith
-    refine ⟨hnm1, by rw [hnm1] at hU; push_cast at hU; linarith, ?_⟩
+    refine ⟨hnm1, Or.inl (by rw [hnm1] at hU; push_cast at hU; linarith), ?_⟩
     have hv2 : v < 0 := by
       rw [hnm1] at hn2; push_cast at hn2
       have := (div_lt_iff₀ (by norm_num : (0:ℚ) < 100000)).mp hn2
@@ -639,21 +697,18 @@ theorem scaleCoord_spec_val {x : F64} {v : ℚ} (hx : HasVal x v) (hg : OnGrid v
         rw [show ((-1:ℤ) + 1) = 0 by norm_num]
         exact (lt_of_hasVal hsub hasVal_zero).mpr (by push_cast; linarith)
       rw [hlt]; rfl
-    rw [hoff] at hsc
-    obtain ⟨z1, z2⟩ := zero_digits p (by omega)
-    rw [hsc, z1]
-    by_cases h5 : p > 5
-    · rw [if_pos h5, z2]; norm_num
-    · rw [if_neg h5]; norm_num
-
+    rw [hoff, carry_lt hasVal_zero (by norm_num) ((-1:ℤ) + 1)] at hsc
+    rw [hsc]
+    exact zero_sc ((-1:ℤ) + 1) p hp
 
 theorem scaleCoord_spec (s : Bool) (m : ℕ) (e : ℤ) (hm : m < 2 ^ 53) (he1 : -1074 ≤ e) (he0 : e ≤ 0) (p : ℕ) (hp : p ≤ 11)
     (hb : |(F64.fin s m e).val| ≤ 10 ^ 7) (n : ℤ)
     (hn1 : (n:ℚ) ≤ (F64.fin s m e).val / 100000) (hn2 : (F64.fin s m e).val / 100000 < (n:ℚ) + 1) :
     let x := F64.fin s m e
     let sc := scaleCoord x p
-    (n = -1 ∧ -(x.val / 100000) ≤ (2:ℚ) ^ (-(1075:ℤ)) ∧ sc = ⟨0, 0, 0⟩) ∨
-    (sc.h = n ∧ ∃ t' : ℚ, OffsetRel x.val n t' ∧ 0 ≤ t' ∧ t' ≤ 100000 ∧
+    (n = -1 ∧ (-(x.val / 100000) ≤ (2:ℚ) ^ (-(1075:ℤ)) ∨
+        (-(2:ℚ) ^ (-(37:ℤ)) ≤ x.val ∧ IsRN 53 (-1074) (x.val + 100000) 100000)) ∧ sc = ⟨0, 0, 0⟩) ∨
+    (sc.h = n ∧ ∃ t' : ℚ, OffsetRel x.val n t' ∧ 0 ≤ t' ∧ t' < 100000 ∧
       ∃ pv : ℚ, DigitRel t' p sc.i1 sc.i2 pv) :=
   scaleCoord_spec_val (hasVal_fin s m e) (onGrid_fin s m e hm he1 he0) p hp hb n hn1 hn2
 
@@ -687,65 +742,29 @@ theorem isRN_wrap (v : ℚ) (h1 : -(2:ℚ) ^ (-(37:ℤ)) ≤ v) (h2 : v < 0) : I
     · intro _
       norm_num
 
-/-- **class G18-1**: for `−2^(−37) ≤ x < 0` whose quotient by the tile does not underflow, tile `−1` is selected, the
-computed offset is the tile size `10^5` itself, `i1 = 10^min(p,5)` (its low `min(p,5)` digits are all 0) and `i2 = 0` -/
+/-- **what the repaired code (F74) does for `−2^(−37) ≤ x < 0`** (every precision): whether the quotient `x/10^5` underflows
+to `−0` (tile 0 directly, negative offset clamped to 0) or tile `−1` is selected and `x + 10^5` rounds to the tile size
+(carry into tile 0), the result is tile `0`, all digit indices `0`: the square `[0, 10^(5−p))` adjoining the position,
+which lies at most `2^(−37)` m below its edge — a sliver of the classes F2 (underflow) / F75 (rounded offset) -/
 theorem scaleCoord_wrap (s : Bool) (m : ℕ) (e : ℤ) (hm : m < 2 ^ 53) (he1 : -1074 ≤ e) (he0 : e ≤ 0) (p : ℕ) (hp : p ≤ 11)
-    (h1 : -(2:ℚ) ^ (-(37:ℤ)) ≤ (F64.fin s m e).val) (h2 : (F64.fin s m e).val < 0)
-    (hnu : (2:ℚ) ^ (-(1075:ℤ)) < -((F64.fin s m e).val / 100000)) :
-    scaleCoord (F64.fin s m e) p = ⟨-1, 10 ^ (min p 5), 0⟩ := by
+    (h1 : -(2:ℚ) ^ (-(37:ℤ)) ≤ (F64.fin s m e).val) (h2 : (F64.fin s m e).val < 0) :
+    scaleCoord (F64.fin s m e) p = ⟨0, 0, 0⟩ := by
   set v := (F64.fin s m e).val with hv
-  have hx : HasVal (F64.fin s m e) v := hasVal_fin s m e
-  have hg : OnGrid v := onGrid_fin s m e hm he1 he0
   have h37 : (2:ℚ) ^ (-(37:ℤ)) < 1 := by
     have : (2:ℚ) ^ (-(37:ℤ)) < (2:ℚ) ^ (0:ℤ) := two_zpow_lt_iff.mpr (by norm_num)
     simpa using this
   have hb : |v| ≤ 10 ^ 7 := by rw [abs_le]; constructor <;> norm_num <;> linarith
   have hn1 : (((-1:ℤ)):ℚ) ≤ v / 100000 := by push_cast; rw [le_div_iff₀ (by norm_num)]; linarith
   have hn2 : v / 100000 < (((-1:ℤ)):ℚ) + 1 := by push_cast; rw [div_lt_iff₀ (by norm_num)]; linarith
-  have htile : fl (F64.fin s m e / F64.ofInt osgb_tile) = -1 := by
-    rcases tile_floor hx hg hb (-1) hn1 hn2 with h | ⟨_, hU⟩
-    · exact h
-    · exfalso; push_cast at hU; linarith
-  obtain ⟨r, hr, hval, _, _, _, _⟩ := offset_rounded hx (by linarith) h2
-  have hr100 : r = 100000 := IsRN.unique (by norm_num) hr (isRN_wrap v h1 h2)
-  rw [hr100] at hval
-  have hgr : OnGrid (100000:ℚ) := ⟨100000, 0, by norm_num, by norm_num, by norm_num, by norm_num⟩
-  rw [scaleCoord_eq, htile]
-  have hd := digits_of_offset hval hgr (by norm_num) (le_refl _) p hp
-  obtain ⟨d1, d2⟩ := hd
-  by_cases h5 : p ≤ 5
-  · obtain ⟨a, b⟩ := d1 h5
-    have hm5 : min p 5 = p := by omega
-    have hfl : ⌊(100000:ℚ) / 10 ^ (5 - p)⌋ = 10 ^ p := by
-      have : (100000:ℚ) / 10 ^ (5 - p) = ((10 ^ p : ℤ) : ℚ) := by
-        have h5' : (100000:ℚ) = 10 ^ p * 10 ^ (5 - p) := by
-          rw [← pow_add, show p + (5 - p) = 5 by omega]; norm_num
-        rw [h5']; push_cast; field_simp
-      rw [this, Int.floor_intCast]
-    rw [a, b, hfl, hm5]
-  · have h5' : 5 < p := by omega
-    obtain ⟨a, b⟩ := d2 h5'
-    have hm5 : min p 5 = 5 := by omega
-    have hfl : ⌊(100000:ℚ)⌋ = 100000 := by
-      have : (100000:ℚ) = ((100000:ℤ):ℚ) := by norm_num
-      rw [this, Int.floor_intCast]
-    rw [hfl] at a b
-    have hz : ((100000:ℚ) - ((100000:ℤ):ℚ)) * 10 ^ (p - 5) = 0 := by push_cast; ring
-    rw [hz] at b
-    have hfl0 : ⌊(0:ℚ)⌋ = 0 := Int.floor_zero
-    rw [hfl0] at b
-    obtain ⟨_, hc⟩ := b
-    have hi2 : (if p > 5 then fl ((offset (F64.fin s m e) (-1) - F64.floor (offset (F64.fin s m e) (-1) / pow10 (5 - p))) * pow10 (p - 5)) else 0) = 0 := by
-      rcases hc with h | ⟨_, _, hbad⟩
-      · exact h
-      · exfalso
-        have hC : (2:ℚ) ^ (-(1075:ℤ)) < 1 := by
-          have : (2:ℚ) ^ (-(1075:ℤ)) < (2:ℚ) ^ (0:ℤ) := two_zpow_lt_iff.mpr (by norm_num)
-          simpa using this
-        simp only [Int.cast_zero, abs_zero, zero_mul, zero_add, sub_zero] at hbad
-        rcases le_max_iff.mp hbad with h | h <;> linarith
-    rw [a, hi2, hm5]
-    norm_num
+  rcases scaleCoord_spec s m e hm he1 he0 p hp hb (-1) hn1 hn2 with ⟨_, _, hsc⟩ | ⟨_, t', hrel, _, hlt, _⟩
+  · exact hsc
+  · exfalso
+    rcases hrel with ⟨_, hc⟩ | ⟨_, _, hr, _⟩
+    · rcases hc with hc | hc
+      · exact hc rfl
+      · linarith
+    · have := IsRN.unique (by norm_num) hr (isRN_wrap v h1 h2)
+      linarith
 
 end OSGBScale
 end GeoVerif
